@@ -6,9 +6,6 @@ import Gaftools.Spec.Order
 namespace Gaftools.Drv.Order
 open Lean Gaftools.Drv Gaftools.Gfa Gaftools.Algo Gaftools.View Gaftools.Order Gaftools.Spec.Order Gaftools.Spec.Graph
 
-def soOf (t : GfaFile) (v : V) : Option Int := (t.segs.find? (·.id == v)).bind (fun s => tagInt s.tags "SO")
-def snOf (t : GfaFile) (v : V) : Option String := (t.segs.find? (·.id == v)).bind (fun s => tagVal s.tags "SN")
-
 def tagsOfFile (tout : GfaFile) (v : V) : Option (Int × Int) :=
   (tout.segs.find? (·.id == v)).bind (fun s => do
     let b ← tagInt s.tags "BO"
@@ -26,9 +23,8 @@ def opRun (j : Json) : R Json := do
   let vs := Graph.ids g
   let comps := allComponents nb vs
   let named := nameComps (snOf t) comps
-  let compOf (c : String) : List V := ((named.find? (·.1 == c)).map (·.2)).getD []
-  let dec (c : String) : Outcome := decompose nb (compOf c) (soOf t) (snOf t)
-  let model := runOrder dec order
+  let compOf (c : String) : List V := compOfName t (!withSeq) c
+  let model := orderRun t order (!withSeq)
   let impl ← listOf (fun x => do
       let name ← str x "name"
       let out ← match (fld x "out").toOption with
